@@ -91,6 +91,13 @@ CLAIMED = {
                 "and exactly one timing record per crossing; on the noop backend a nested two-sandbox tree carries each sandbox's own state and files timing "
                 "records with the right sandbox.",
             "Depth <=3, width <=2.", "DESIGN.md 4/C19"),
+    "C18": ("other", "Decided by decomposition, not by enumerating schedules: the solver-driven exploration proves on all paths (symbolic creation orders, "
+                   "destroy choices, addresses, call trees) that (1) every read of rlbox's process-wide mutable state (sandbox_list and its buffer) is under "
+                   "sandbox_list_lock (shared or unique) and every write under the unique lock, no other non-thread-local rlbox global is written, and the "
+                   "noop/dylib per-thread records are thread_local in the IR in both TLS configurations; (2) with other sandboxes live in any order, "
+                   "lookups/translations for a sandbox return what they return alone. Under correct lock primitives these imply race freedom and "
+                   "non-interference for any number of threads.",
+            "Does not cover weak-memory effects, the lock implementation, or custom shared-lock substitutes; no interleaving is executed.", "DESIGN.md 4/C18"),
     "C05": (MC, "p+n, p-n, +=, -=, ++/-- (pre/post), p[n], &p[n] for 8 pointee types x integer index types (plain, tainted, tainted_volatile) on LP32/LP16 "
                 "model backends with symbolic region base, pointer and full-width index: returns iff the exact 128-bit address p+/-n*s_guest is inside "
                 "the region and then returns exactly it, else aborts; null aborts.",
